@@ -13,6 +13,7 @@ import Proofs.ZoneFileGenerate
 import Proofs.ZoneFileLossless
 import Proofs.ZoneFileCodecLink
 import Proofs.ZoneFileGenLine
+import Proofs.ZoneFileGenTTL
 import Proofs.ZoneFileTypeTok
 import Proofs.ZoneFileCodecA
 /-!
@@ -885,6 +886,161 @@ example : (∃ s', rdataFromText 5 (TState.init (s2l "h1")) (some [[104, 111, 11
       (some [[101, 120], []]) true = .ok (.name1 [s2l "h1", [104, 111, 115, 116, 115]], none, s')) ∧
     (Rdata.name1 [s2l "h1", [104, 111, 115, 116, 115]] ≠ .name1 [s2l "h1"]) :=
   ⟨⟨_, rfl⟩, by decide⟩
+
+/-! ### the TTL of a line that states none (`default_ttl` versus `last_ttl`) -/
+
+/-- **one rule for both line kinds.**  (1) The `except BadTTL` fallback of `_generate_line` — "no default and no last
+TTL: error; default known: the default; otherwise the last stated TTL" — is the TTL `_rr_line` inherits
+(`PState.inheritedTTL`, the value `header_stage`/`read_line` give a TTL-less record line).  (2) A known default TTL
+(`$TTL`, or the SOA minimum) wins over any TTL stated on an earlier line; (3) only without a default is the last stated
+TTL inherited.  (Seeded change C09-e swaps the precedence in `_generate_line` alone.) -/
+theorem ttl_defaulting_rule (r : PState) :
+    genFallbackTTL r = r.inheritedTTL ∧
+    (r.defaultTTLKnown = true → r.inheritedTTL = some r.defaultTTL) ∧
+    (r.defaultTTLKnown = false → r.lastTTLKnown = true → r.inheritedTTL = some r.lastTTL) ∧
+    (r.defaultTTLKnown = false → r.lastTTLKnown = false → r.inheritedTTL = none) :=
+  ⟨genFallbackTTL_eq_inherited r, inheritedTTL_default r, inheritedTTL_last r,
+    fun h1 h2 => by simp [PState.inheritedTTL, h1, h2]⟩
+
+/-- the model's `_generate_line`, on a header with neither TTL nor class, hands its loop exactly the inherited TTL and
+leaves `last_ttl` alone (`generate_ttl_of_header_class`: the same with the class written) -/
+theorem generate_ttl_of_header (r : PState) (rangeT lhs tyT rhs T : List Nat) (a b st ttl ty : Nat) (lm rm : Modify)
+    (hco : r.currentOrigin.isNone = false)
+    (htok : r.tok = after 0 false (genHeaderTextY rangeT lhs tyT rhs T)) (hT : startsDelim T)
+    (k1 : TokOK rangeT) (k2 : TokOK lhs) (k5 : TokOK tyT) (k6 : TokOK rhs)
+    (hrange : grangeFromText rangeT = .ok (a, b, st)) (hnt : ttlOf tyT = none) (hinh : r.inheritedTTL = some ttl)
+    (hnc : classFromText tyT = none) (hty : typeFromText tyT = some ty)
+    (hlm : parseModify lhs = some lm) (hrm : parseModify rhs = some rm) :
+    generateParse r = .ok (⟨ttl, ty, generateExpansion a b st lhs rhs lm rm⟩, { r with tok := after 0 false T }) :=
+  generateParse_line_y r rangeT lhs tyT rhs T a b st ttl ty lm rm hco htok hT k1 k2 k5 k6 hrange hnt hinh hnc hty hlm hrm
+
+theorem generate_ttl_of_header_class (r : PState) (rangeT lhs clsT tyT rhs T : List Nat) (a b st ttl ty : Nat)
+    (lm rm : Modify) (hco : r.currentOrigin.isNone = false)
+    (htok : r.tok = after 0 false (genHeaderTextC rangeT lhs clsT tyT rhs T)) (hT : startsDelim T)
+    (k1 : TokOK rangeT) (k2 : TokOK lhs) (k4 : TokOK clsT) (k5 : TokOK tyT) (k6 : TokOK rhs)
+    (hrange : grangeFromText rangeT = .ok (a, b, st)) (hnt : ttlOf clsT = none) (hinh : r.inheritedTTL = some ttl)
+    (hcls : classFromText clsT = some 1) (hty : typeFromText tyT = some ty)
+    (hlm : parseModify lhs = some lm) (hrm : parseModify rhs = some rm) :
+    generateParse r = .ok (⟨ttl, ty, generateExpansion a b st lhs rhs lm rm⟩, { r with tok := after 0 false T }) :=
+  generateParse_line_c r rangeT lhs clsT tyT rhs T a b st ttl ty lm rm hco htok hT k1 k2 k4 k5 k6 hrange hnt hinh hcls hty
+    hlm hrm
+
+/-- **"$GENERATE versus its expansion", TTLs included, when no TTL is written**: the line `$GENERATE range lhs type rhs⏎`
+and the file of its explicit record lines, none of which states a TTL (`InheritLines`: header without TTL, record TTL
+`ttl`, not an SOA), take the reader from the same state to the same zone — each record with the TTL `ttl` the reader
+inherits at that point (`ttl_defaulting_rule`: the default TTL if known, whatever was stated before; else the last
+stated TTL) — and to the same parser state.  Current origin `co` and zone origin `zo` are independent as in
+`generate_eq_expansion_text`. -/
+theorem generate_eq_expansion_inherited_ttl (f : Nat) (r : PState) (z : ZoneMap) (co zo : Name)
+    (rangeT lhs tyT rhs rest : List Nat) (a b st ttl ty : Nat) (lm rm : Modify)
+    (e : List Nat × List Nat → Entry) (nOf : List Nat × List Nat → Name) (ls : List GLine)
+    (hco : r.currentOrigin = some co) (hzo : r.zoneOrigin = some zo)
+    (k1 : TokOK rangeT) (k2 : TokOK lhs) (k5 : TokOK tyT) (k6 : TokOK rhs)
+    (hrange : grangeFromText rangeT = .ok (a, b, st)) (hnt : ttlOf tyT = none) (hnc : classFromText tyT = none)
+    (hty : typeFromText tyT = some ty) (hlm : parseModify lhs = some lm) (hrm : parseModify rhs = some rm)
+    (hinh : r.inheritedTTL = some ttl)
+    (hitems : ∀ item ∈ generateExpansion a b st lhs rhs lm rm, ∀ ln,
+      genItem ttl ty item { r with tok := after 0 false (10 :: rest), lastName := ln } =
+        .ok (some (e item), { r with tok := after 0 false (10 :: rest), lastName := some (nOf item) }))
+    (hls : ls.map GLine.entry = (generateExpansion a b st lhs rhs lm rm).map e)
+    (hok : LinesOK co zo r.relativize r.gfix r.lastName (some ttl) ls) (hu : InheritLines ttl ls)
+    (hlast : lastN r.lastName ls = lastNameAfter nOf r.lastName (generateExpansion a b st lhs rhs lm rm)) :
+    readLoop (f + 2)
+        { r with tok := after 0 false (s2l "$GENERATE" ++ genHeaderTextY rangeT lhs tyT rhs (10 :: rest)) } z =
+    readLoop (f + ls.length) { r with tok := after 0 false (glinesText ls ++ rest) } z :=
+  generate_eq_lines_inherit f r z co zo (genHeaderTextY rangeT lhs tyT rhs (10 :: rest)) rest ttl ty _ e nOf ls hco hzo
+    (sp_startsDelim _)
+    (generateParse_line_y { r with tok := after 0 false (genHeaderTextY rangeT lhs tyT rhs (10 :: rest)) }
+      rangeT lhs tyT rhs (10 :: rest) a b st ttl ty lm rm (by simp [hco]) rfl ⟨10, rest, rfl, by decide⟩ k1 k2 k5 k6
+      hrange hnt hinh hnc hty hlm hrm)
+    hinh hitems hls hok hu hlast
+
+/-- the same with the class written: `$GENERATE range lhs IN type rhs⏎` -/
+theorem generate_eq_expansion_inherited_ttl_class (f : Nat) (r : PState) (z : ZoneMap) (co zo : Name)
+    (rangeT lhs clsT tyT rhs rest : List Nat) (a b st ttl ty : Nat) (lm rm : Modify)
+    (e : List Nat × List Nat → Entry) (nOf : List Nat × List Nat → Name) (ls : List GLine)
+    (hco : r.currentOrigin = some co) (hzo : r.zoneOrigin = some zo)
+    (k1 : TokOK rangeT) (k2 : TokOK lhs) (k4 : TokOK clsT) (k5 : TokOK tyT) (k6 : TokOK rhs)
+    (hrange : grangeFromText rangeT = .ok (a, b, st)) (hnt : ttlOf clsT = none) (hcls : classFromText clsT = some 1)
+    (hty : typeFromText tyT = some ty) (hlm : parseModify lhs = some lm) (hrm : parseModify rhs = some rm)
+    (hinh : r.inheritedTTL = some ttl)
+    (hitems : ∀ item ∈ generateExpansion a b st lhs rhs lm rm, ∀ ln,
+      genItem ttl ty item { r with tok := after 0 false (10 :: rest), lastName := ln } =
+        .ok (some (e item), { r with tok := after 0 false (10 :: rest), lastName := some (nOf item) }))
+    (hls : ls.map GLine.entry = (generateExpansion a b st lhs rhs lm rm).map e)
+    (hok : LinesOK co zo r.relativize r.gfix r.lastName (some ttl) ls) (hu : InheritLines ttl ls)
+    (hlast : lastN r.lastName ls = lastNameAfter nOf r.lastName (generateExpansion a b st lhs rhs lm rm)) :
+    readLoop (f + 2)
+        { r with tok := after 0 false (s2l "$GENERATE" ++ genHeaderTextC rangeT lhs clsT tyT rhs (10 :: rest)) } z =
+    readLoop (f + ls.length) { r with tok := after 0 false (glinesText ls ++ rest) } z :=
+  generate_eq_lines_inherit f r z co zo (genHeaderTextC rangeT lhs clsT tyT rhs (10 :: rest)) rest ttl ty _ e nOf ls hco hzo
+    (sp_startsDelim _)
+    (generateParse_line_c { r with tok := after 0 false (genHeaderTextC rangeT lhs clsT tyT rhs (10 :: rest)) }
+      rangeT lhs clsT tyT rhs (10 :: rest) a b st ttl ty lm rm (by simp [hco]) rfl ⟨10, rest, rfl, by decide⟩ k1 k2 k4 k5 k6
+      hrange hnt hinh hcls hty hlm hrm)
+    hinh hitems hls hok hu hlast
+
+/-- non-vacuity, the situation of seeded change C09-e: default TTL 3600 known (`$TTL 3600`), an earlier record stated
+86400; `$GENERATE 1-2 h$ A 10.0.0.$` against `h1 A 10.0.0.1`, `h2 A 10.0.0.2` — every record gets 3600, not 86400 -/
+example (r0 : PState) (rest : List Nat) (hrel : r0.relativize = true) (hg : r0.gfix = true)
+    (hco : r0.currentOrigin = some [[101, 120], []]) (hzo : r0.zoneOrigin = some [[101, 120], []])
+    (hdk : r0.defaultTTLKnown = true) (hdv : r0.defaultTTL = 3600) (_hlk : r0.lastTTLKnown = true)
+    (_hlv : r0.lastTTL = 86400) :
+    let zo : Name := [[101, 120], []]
+    let lhs := s2l "h$"
+    let rhs := s2l "10.0.0.$"
+    let mk : Nat → GLine := fun i =>
+      { owner := some (s2l "h" ++ natToDec i), b0 := [32], hdr := .y (s2l "A"),
+        rdText := 32 :: (s2l "10.0.0." ++ natToDec i ++ [10]), n := [s2l "h" ++ natToDec i] ++ zo,
+        m := [s2l "h" ++ natToDec i], ttl := 3600, ty := 1, rd := .a [10, 0, 0, i], comment := none }
+    let ls := [mk 1, mk 2]
+    let e : List Nat × List Nat → Entry := fun it => ⟨[it.1], 3600, 1, ⟨.a [10, 0, 0, digitsVal (it.1.drop 1) 0], none⟩⟩
+    let nOf : List Nat × List Nat → Name := fun it => [it.1] ++ zo
+    r0.inheritedTTL = some 3600 ∧ ttlOf (s2l "A") = none ∧ classFromText (s2l "A") = none ∧
+    generateExpansion 1 2 1 lhs rhs {} {} = [(s2l "h1", s2l "10.0.0.1"), (s2l "h2", s2l "10.0.0.2")] ∧
+    (∀ item ∈ generateExpansion 1 2 1 lhs rhs {} {}, ∀ ln,
+      genItem 3600 1 item { r0 with tok := after 0 false (10 :: rest), lastName := ln } =
+        .ok (some (e item), { r0 with tok := after 0 false (10 :: rest), lastName := some (nOf item) })) ∧
+    ls.map GLine.entry = (generateExpansion 1 2 1 lhs rhs {} {}).map e ∧
+    LinesOK zo zo r0.relativize r0.gfix r0.lastName (some 3600) ls ∧ InheritLines 3600 ls ∧
+    lastN r0.lastName ls = lastNameAfter nOf r0.lastName (generateExpansion 1 2 1 lhs rhs {} {}) := by
+  intro zo lhs rhs mk ls e nOf
+  have hexp : generateExpansion 1 2 1 lhs rhs {} {} = [(s2l "h1", s2l "10.0.0.1"), (s2l "h2", s2l "10.0.0.2")] := by rfl
+  refine ⟨by rw [inheritedTTL_default r0 hdk, hdv], by decide, by decide, hexp, ?_, ?_, ?_, ?_, ?_⟩
+  · rw [hexp]
+    intro item hi ln
+    simp only [List.mem_cons, List.mem_nil_iff, or_false] at hi
+    rcases hi with rfl | rfl
+    · exact genItem_record _ (s2l "h1") (s2l "10.0.0.1") zo zo ([s2l "h1"] ++ zo) [s2l "h1"] 3600 1 (.a [10, 0, 0, 1]) none _
+        hco hzo rfl rfl (by simp [ownerInZone, hrel]; rfl) (by simp only [hrel, hg]; rfl)
+    · exact genItem_record _ (s2l "h2") (s2l "10.0.0.2") zo zo ([s2l "h2"] ++ zo) [s2l "h2"] 3600 1 (.a [10, 0, 0, 2]) none _
+        hco hzo rfl rfl (by simp [ownerInZone, hrel]; rfl) (by simp only [hrel, hg]; rfl)
+  · rw [hexp]; rfl
+  · have good : ∀ i, i = 1 ∨ i = 2 → (mk i).Good zo zo r0.relativize r0.gfix := by
+      intro i hi
+      rcases hi with rfl | rfl
+      · refine ⟨⟨sp_blank, by simp⟩, ?_, rfl, by simp [ownerInZone, hrel]; rfl, ?_, ?_⟩
+        · intro ow how
+          simp only [mk, Option.some.injEq] at how
+          subst how
+          exact ⟨by decide, by decide, by decide, rfl⟩
+        · exact ⟨⟨by decide, by decide⟩, by decide, by decide, by decide⟩
+        · exact rdataReads_A_gen [32] (s2l "10.0.0.1") [10, 0, 0, 1] none _ _ _ _ sp_blank (by simp) (by simp) (by decide)
+            (by decide) (by decide) rfl rfl
+      · refine ⟨⟨sp_blank, by simp⟩, ?_, rfl, by simp [ownerInZone, hrel]; rfl, ?_, ?_⟩
+        · intro ow how
+          simp only [mk, Option.some.injEq] at how
+          subst how
+          exact ⟨by decide, by decide, by decide, rfl⟩
+        · exact ⟨⟨by decide, by decide⟩, by decide, by decide, by decide⟩
+        · exact rdataReads_A_gen [32] (s2l "10.0.0.2") [10, 0, 0, 2] none _ _ _ _ sp_blank (by simp) (by simp) (by decide)
+            (by decide) (by decide) rfl rfl
+    exact ⟨good 1 (Or.inl rfl), by intro h; simp [mk] at h, fun _ => rfl,
+      good 2 (Or.inr rfl), by intro h; simp [mk] at h, fun _ => rfl, trivial⟩
+  · intro l hl
+    simp only [ls, List.mem_cons, List.mem_nil_iff, or_false] at hl
+    rcases hl with rfl | rfl <;> exact ⟨rfl, rfl, by decide⟩
+  · rw [hexp]; rfl
 
 /-! ### D08 — `want_generic` (recorded finding; DESIGN §6)
 
